@@ -848,17 +848,26 @@ func (r *Runtime) newPrimitiveObject(value Value, proto *Object, class string) *
 	return v
 }
 
+// bigIntToNumber returns the Number value for a BigInt (Number(bigint)): the integer rounded to the nearest double.
+func bigIntToNumber(n *big.Int) Value {
+	if n.IsInt64() {
+		return intToValue(n.Int64())
+	}
+	f, _ := new(big.Float).SetInt(n).Float64()
+	return floatToValue(f)
+}
+
 func (r *Runtime) builtin_Number(call FunctionCall) Value {
 	if len(call.Arguments) > 0 {
 		switch t := call.Arguments[0].(type) {
 		case *Object:
 			primValue := t.toPrimitiveNumber()
 			if bigint, ok := primValue.(*valueBigInt); ok {
-				return intToValue((*big.Int)(bigint).Int64())
+				return bigIntToNumber((*big.Int)(bigint))
 			}
 			return primValue.ToNumber()
 		case *valueBigInt:
-			return intToValue((*big.Int)(t).Int64())
+			return bigIntToNumber((*big.Int)(t))
 		default:
 			return t.ToNumber()
 		}
@@ -874,12 +883,12 @@ func (r *Runtime) builtin_newNumber(args []Value, proto *Object) *Object {
 		case *Object:
 			primValue := t.toPrimitiveNumber()
 			if bigint, ok := primValue.(*valueBigInt); ok {
-				v = intToValue((*big.Int)(bigint).Int64())
+				v = bigIntToNumber((*big.Int)(bigint))
 			} else {
 				v = primValue.ToNumber()
 			}
 		case *valueBigInt:
-			v = intToValue((*big.Int)(t).Int64())
+			v = bigIntToNumber((*big.Int)(t))
 		default:
 			v = t.ToNumber()
 		}
